@@ -263,6 +263,9 @@ def gen_script(rng, max_ops, profile):
                 c = rng.pick(rcand)
                 if c not in rem:
                     rem.append(c)
+            # one edit that removes a master AND one of its dependents: whether the dependent stays is not said by any property
+            # (the library drops both, one removal after the other would keep the dependent): not generated
+            rem = [c for c in rem if not any(c != m_ and c in closure({m_}) for m_ in rem)]
             if not asg and not rem:
                 continue
             lines.append('build %d #%d%s%s' % (tid, h, ''.join((' a' if i == 0 else '') + ' %d %d' % (c, value()) for i, c in enumerate(asg)),
@@ -496,6 +499,9 @@ def gen_script(rng, max_ops, profile):
             stale_cmd = rng.pick(['destroynow 0 #%d' % a, 'remove 0 #%d %d' % (a, q), 'destroy 0 #%d' % a])
             if rng.chance(1, 2):
                 lines.append('update')      # the world version moves on: a stamp written through the stale handle would show
+                for h_ in st.marked:        # ... and deferred destroys take effect
+                    st.comps.pop(h_, None)
+                st.marked = set()
             lines.append('lock')
             lines += [live_cmd, stale_cmd] if rng.chance(1, 2) else [stale_cmd, live_cmd]
             if cs and rng.chance(2, 3):
